@@ -43,7 +43,7 @@ type Result struct {
 	perKey   map[string]int
 }
 
-const maxDistinct = 3_000_000
+const maxDistinct = 250_000 // per batch: beyond this the count is conservative (a lower bound)
 
 func New(prop, tier string, seed uint64, batch int) *Result {
 	return &Result{Property: prop, Tier: tier, Seed: seed, Batch: batch, Observed: map[string]int64{}, Notes: map[string]string{},
